@@ -2,7 +2,7 @@
    batchie.distance_calculation.lower_triangular_indices regenerated from /repo on every run
    (Generated/SrcChunks.v, by harness/py2gal.py: a generator denotes the list of the values it yields). *)
 From Coq Require Import ZArith List Bool Lia.
-From Batchie Require Import Lib.Sexp Lib.PyRt Model.Chunks Generated.SrcChunks Proofs.PyRtLemmas.
+From Batchie Require Import Lib.Sexp Lib.PyRt Model.Chunks Generated.SrcChunks Proofs.PyRtLemmas Proofs.C07Chunks.
 Import ListNotations.
 Open Scope Z_scope.
 
@@ -50,4 +50,66 @@ Theorem src_lower_tri_negative : forall n : Z, n <= 0 -> src_lower_triangular_in
 Proof.
   intros n Hn. unfold src_lower_triangular_indices, zrange.
   replace (Z.to_nat n) with 0%nat by lia. reflexivity.
+Qed.
+
+(* ---- get_lower_triangular_indices_chunk as ONE whole function (with consume and
+   get_number_of_lower_triangular_indices, translated too) = Chunks.chunk_checked, for all integer arguments ---- *)
+Lemma src_n_lower_is_model n : src_get_number_of_lower_triangular_indices n = Ok (n_lower n).
+Proof. reflexivity. Qed.
+
+Lemma src_lower_tri_any (n : Z) : src_lower_triangular_indices n = Ok (map zpair (lower_tri (Z.to_nat n))).
+Proof.
+  destruct (Z.le_gt_cases 0 n) as [H|H].
+  - rewrite <- (Z2Nat.id n H) at 1. apply src_lower_tri_is_model.
+  - rewrite src_lower_tri_negative by lia. replace (Z.to_nat n) with 0%nat by lia. reflexivity.
+Qed.
+
+Theorem src_chunk_is_model : forall n k c : Z,
+  src_get_lower_triangular_indices_chunk n k c = chunk_checked n k c.
+Proof.
+  intros n k c. unfold src_get_lower_triangular_indices_chunk, chunk_checked.
+  destruct (k <? c); cbn [negb]; [|reflexivity].
+  rewrite src_n_lower_is_model. cbn [res_bind]. unfold z_floordiv, z_mod.
+  destruct (c =? 0); [reflexivity|]. cbn [res_bind].
+  rewrite src_lower_tri_any. unfold chunk_bounds.
+  assert (T : forall s e : Z,
+    (dor g <- src_consume (map zpair (lower_tri (Z.to_nat n))) s; dor r5 <- islice_take g (e - s); Ok r5)
+    = (if s <? 0 then Err 8 else if e - s <? 0 then Err 8
+       else Ok (map (fun p => (Z.of_nat (fst p), Z.of_nat (snd p))) (slice (lower_tri (Z.to_nat n)) s e)))).
+  { intros s e. unfold src_consume, islice_drop, islice_take, slice.
+    destruct (s <? 0); [reflexivity|]. cbn [res_bind].
+    destruct (e - s <? 0); [reflexivity|]. cbn [res_bind].
+    now rewrite skipn_map, firstn_map. }
+  destruct (k <? n_lower n mod c); cbn [res_bind]; [|apply T].
+  replace (k * (n_lower n / c) + n_lower n / c + k + 1) with (k * (n_lower n / c) + n_lower n / c + (k + 1)) by ring.
+  apply T.
+Qed.
+
+(* for a chunk index in range the checks pass: the result is Chunks.chunk (as integer pairs) *)
+Theorem chunk_checked_in_range : forall (n : nat) (k c : Z), 0 <= k < c ->
+  chunk_checked (Z.of_nat n) k c = Ok (map zpair (chunk n k c)).
+Proof.
+  intros n k c Hk. unfold chunk_checked, chunk. rewrite Nat2Z.id.
+  replace (k <? c) with true by (symmetry; apply Z.ltb_lt; lia).
+  replace (c =? 0) with false by (symmetry; apply Z.eqb_neq; lia). cbn [negb].
+  rewrite C07Chunks.chunk_bounds_cut.
+  assert (HN : 0 <= n_lower (Z.of_nat n)) by (rewrite <- C07Chunks.lower_tri_length; lia).
+  assert (Hc : 0 < c) by lia.
+  pose proof (C07Chunks.cut_nonneg _ _ HN Hc k ltac:(lia)) as H0.
+  pose proof (C07Chunks.cut_mono _ _ HN Hc k ltac:(lia)) as H1.
+  replace (C07Chunks.cut (n_lower (Z.of_nat n)) c k <? 0) with false by (symmetry; apply Z.ltb_ge; lia).
+  replace (C07Chunks.cut (n_lower (Z.of_nat n)) c (k + 1) - C07Chunks.cut (n_lower (Z.of_nat n)) c k <? 0)
+    with false by (symmetry; apply Z.ltb_ge; lia).
+  reflexivity.
+Qed.
+
+(* a negative dimension enumerates nothing: whatever passes the checks is the empty chunk *)
+Theorem chunk_checked_negative : forall n k c l, n <= 0 -> chunk_checked n k c = Ok l -> l = [].
+Proof.
+  intros n k c l Hn. unfold chunk_checked. replace (Z.to_nat n) with 0%nat by lia.
+  destruct (negb (k <? c)); [discriminate|]. destruct (c =? 0); [discriminate|].
+  destruct (chunk_bounds (n_lower n) k c) as [s e].
+  destruct (s <? 0); [discriminate|]. destruct (e - s <? 0); [discriminate|].
+  intros H. injection H as <-. unfold slice, lower_tri. cbn [seq flat_map].
+  now rewrite skipn_nil, firstn_nil.
 Qed.
